@@ -4,6 +4,7 @@ import Helm.Props.C15
 #print axioms Helm.Props.C15.entry_survives
 #print axioms Helm.Props.C15.classify_reserved
 #print axioms Helm.Props.C15.classify_template
+#print axioms Helm.Props.C15.v1_requirements_lock_kept
 #print axioms Helm.Props.C15.counterexample_bom
 #print axioms Helm.Props.C15.counterexample_backslash
 #print axioms Helm.Props.C15.counterexample_v1_lock
